@@ -58,7 +58,7 @@ Proof.
 Qed.
 
 Theorem drop_only_own : forall h a n,
-  drop_check h a n = Admitted ->
+  drop_check h a n = Granted ->
   exists info, lookup h n = Some (TObject info) /\ DropRight a info.
 Proof.
   intros h a n H. unfold drop_check in H.
@@ -79,7 +79,7 @@ Qed.
 (* a denied drop is exactly InvalidDropAccess when the node is an object *)
 Theorem drop_denied_is_invalid_drop_access : forall h a n info,
   lookup h n = Some (TObject info) ->
-  drop_check h a n = Admitted \/ drop_check h a n = EInvalidDropAccess.
+  drop_check h a n = Granted \/ drop_check h a n = EInvalidDropAccess.
 Proof.
   intros h a n info L. unfold drop_check, get_object_info. rewrite L.
   destruct (is_proof (oi_bp info)); [destruct (opt_bp_eqb _ _); auto|].
@@ -90,7 +90,7 @@ Qed.
 (* globalize                                                                                       *)
 (* ---------------------------------------------------------------------------------------------- *)
 Theorem globalize_only_own : forall h a n r m,
-  globalize_check h a n r m = Admitted ->
+  globalize_check h a n r m = Granted ->
   exists addr reserved info,
     lookup h r = Some (TReservation addr) /\ lookup h addr = Some (TPhantom reserved) /\
     lookup h n = Some (TObject info) /\ oi_global info = false /\
@@ -295,7 +295,7 @@ Proof. induction ops as [|o r IH]; intros h HI; [exact HI|]. apply IH. apply sys
 (* in a table satisfying Inv, whoever is admitted to drop an object runs code of the object's
    own package *)
 Theorem drop_same_package : forall h a n,
-  Inv h -> actor_consistent h a = true -> drop_check h a n = Admitted ->
+  Inv h -> actor_consistent h a = true -> drop_check h a n = Granted ->
   exists info, lookup h n = Some (TObject info) /\ actor_pkg a = Some (bp_pkg (oi_bp info)).
 Proof.
   intros h a n HI Hc Hd. destruct (drop_only_own _ _ _ Hd) as (info & Hl & Hr).
